@@ -428,7 +428,8 @@ def run_schedule(zy, sockdir, k, db_url, points, chooser, timeout=60):
     chooser(step_no, enabled) -> child idx, where enabled = sorted list of (idx, point) of paused children.
     -> {"status": "ok" | "watchdog: ...", "trace": [(idx, point)], "enabled": [[idx,...] per step], "results": {idx: exit message},
         "schedule": "R0 R1 I0 I1"}"""
-    out = {"status": "ok", "trace": [], "enabled": [], "results": {}, "schedule": ""}
+    out = {"status": "ok", "trace": [], "enabled": [], "results": {}, "schedule": "", "step_ms": []}
+    t_start = time.time()
     cfgs = [{"mode": "rendezvous", "idx": i, "db_url": db_url, "points": list(points)} for i in range(k)]
     g = None
     try:
@@ -447,7 +448,9 @@ def run_schedule(zy, sockdir, k, db_url, points, chooser, timeout=60):
             else:
                 out["results"][i] = m
         step = 0
+        out["startup_ms"] = int((time.time() - t_start) * 1000)
         while at:
+            t_step = time.time()
             enabled = sorted(at.items())
             i = chooser(step, enabled)
             out["enabled"].append([e[0] for e in enabled])
@@ -461,6 +464,7 @@ def run_schedule(zy, sockdir, k, db_url, points, chooser, timeout=60):
                 at[i] = m["point"]
             else:
                 out["results"][i] = m
+            out["step_ms"].append(int((time.time() - t_step) * 1000))
             step += 1
     except Watchdog as e:
         out["status"] = "watchdog: %s" % e
